@@ -26,6 +26,10 @@ SHORT = {
     'C10-B': ('`PSBT.validate`: memo of checked (pubkey, sig) pairs across inputs', 'signature of input 0 replayed on input 1 with the same key'),
     'C11-A': ('`PSBTIn.validate`: both UTXO records compared by scriptPubKey only', 'segwit input with both records, altered witness amount'),
     'C11-B': ('`PSBTOut.validate`: nested output no longer ties scriptPubKey to RedeemScript', 'change metadata re-dressed as P2SH-P2WSH under a foreign P2SH hash'),
+    'C12-A': ('`ControlBlock.external_pubkey`: `internal_pubkey + t` without even-Y normalisation', 'odd-Y internal key on a block built by `control_block()` (not re-parsed)'),
+    'C12-B': ('`TapBranch.external_pubkey` memoised, ignoring the internal key', 'one tree object used with a second internal key'),
+    'C13-A': ('`MuSigTapScript.get_signature`: negate when parities differ instead of when the output key is odd', 'merkle root given and odd-Y aggregate key'),
+    'C13-B': ('`TapRootMultiSig.__init__`: `not 0 < k < n`', 'k == n'),
     'C14-A': ('`WordList.__contains__`/`normalize`: prefixes count as words', 'mnemonic with four-letter prefixes → different seed'),
     'C14-B': ('`PBKDF2._setup`: pre-hash keys with `len >= block_size`', 'sentence of exactly 128 bytes'),
     'C15-A': ('`Share.mnemonic`: member index/threshold nibbles swapped', 'member_index ≠ member_threshold − 1'),
@@ -46,6 +50,7 @@ NOTES = {
     'C02-A': 'first run: 28 failed obligations without a real input; generator now constructs keys whose masked secret is ≥ n',
     'C04-B': 'missed at first; `fetch_twice` history harness + contract added',
     'C08-A': 'missed at first (30 obligations went undecided on `copy.copy`); history contracts `*_child_after_serialize` added and `copy.copy` modelled in the engine',
+    'C12-B': 'missed at first; history contract `tree2_reused` (same tree, two internal keys) added',
     'C10-B': 'missed at first; reject-at-load catalogue got the replay-across-inputs case',
     'C11-A': 'missed at first; tamper catalogue got the both-records entries',
     'C11-B': 'missed at first; tamper catalogue got the nested-metadata entries',
